@@ -20,7 +20,10 @@ class HarnessError(Exception):
 
 
 FAULT_KINDS = ["ValueError", "ZeroDivisionError", "OverflowError", "ArithmeticError", "MemoryError",
-               "RuntimeError", "FaultInjected", "Potential_Form_Exception"]
+               "RuntimeError", "FaultInjected", "Potential_Form_Exception",
+               # exception types with a meaning of their own to the interpreter or to container code:
+               # a writer must not mistake them for "end of data" / "missing key"
+               "StopIteration", "KeyError", "IndexError", "TypeError", "AttributeError", "AssertionError", "OSError"]
 
 
 def make_exception(kind):
@@ -36,6 +39,10 @@ def make_exception(kind):
         return MemoryError()
     if kind == "RuntimeError":
         return RuntimeError("injected runtime error")
+    simple = {"StopIteration": StopIteration, "KeyError": KeyError, "IndexError": IndexError, "TypeError": TypeError,
+              "AttributeError": AttributeError, "AssertionError": AssertionError, "OSError": OSError}
+    if kind in simple:
+        return simple[kind]("injected %s from a model function" % kind)
     if kind == "Potential_Form_Exception":
         from atsim.potentials.config._common import Potential_Form_Exception
         return Potential_Form_Exception("injected: mathematical expression couldn't be evaluated")
